@@ -36,6 +36,33 @@ EXC_CODE = {None: 0, "ScrapliPrivilegeError": 1, "ScrapliAuthenticationFailed": 
 ALLOWED_FAIL = ("ScrapliPrivilegeError", "ScrapliAuthenticationFailed", "ScrapliTimeout", "Starved")
 
 
+def gcall(r, fn, *a, **kw):
+    """r.call under a watchdog: a call of the code under test that spins without ever touching the device (no read, no
+    write: the scripted device cannot stop it) is ended after GUARD_S seconds by raising Runaway inside it — "does not end in
+    bounded steps" then is an observed outcome like any other instead of a check that never finishes"""
+    import ctypes
+    import threading
+    tid = threading.get_ident()
+    done = threading.Event()
+
+    def watch():
+        # after two calls that had to be ended the limit drops: a tree that spins once usually spins in hundreds of scenarios
+        if not done.wait(GUARD_S if _ENDED[0] < 2 else 4.0):
+            _ENDED[0] += 1
+            ctypes.pythonapi.PyThreadState_SetAsyncExc(ctypes.c_ulong(tid), ctypes.py_object(Runaway))
+    t = threading.Thread(target=watch, daemon=True)
+    t.start()
+    try:
+        return r.call(fn, *a, **kw)
+    finally:
+        done.set()
+        t.join()
+
+
+_ENDED = [0]
+GUARD_S = 90.0      # a scenario's call takes milliseconds; generous enough for a machine under heavy load
+
+
 class Runaway(BaseException):
     """the device has executed far more lines than any bounded navigation could type"""
 
@@ -259,7 +286,7 @@ def run_case(variant, stack, src, dst, fault, policy=("whole",), blocking=None):
         names, order, cls = observe_tables(variant, d, dev)
         obs.update(names=names, order=order, cls=cls)
         try:
-            r.call(d.acquire_priv, src)
+            gcall(r, d.acquire_priv, src)
         except BaseException as e:  # noqa
             obs["setup_exc"] = type(e).__name__
             return obs
@@ -277,7 +304,7 @@ def run_case(variant, stack, src, dst, fault, policy=("whole",), blocking=None):
         n0, h0 = len(dev.log), len(dev.hidden_lines)
         exc = None
         try:
-            r.call(d.acquire_priv, dst)
+            gcall(r, d.acquire_priv, dst)
         except Runaway:
             exc = "Runaway"
         except BaseException as e:  # noqa
@@ -338,14 +365,14 @@ def run_history(variant, stack, hist, dst, policy=("whole",)):
         obs.update(names=names, order=order, cls=cls)
         try:
             if hist.get("acquire_first", True):
-                r.call(d.acquire_priv, hist["reach"])
+                gcall(r, d.acquire_priv, hist["reach"])
             if hist["op"] == "command":
                 if len(hist["lines"]) == 1:
-                    r.call(d.send_command, hist["lines"][0])
+                    gcall(r, d.send_command, hist["lines"][0])
                 else:
-                    r.call(d.send_commands, list(hist["lines"]))
+                    gcall(r, d.send_commands, list(hist["lines"]))
             else:
-                r.call(d.send_configs, list(hist["lines"]), privilege_level=hist["reach"])
+                gcall(r, d.send_configs, list(hist["lines"]), privilege_level=hist["reach"])
         except BaseException as e:  # noqa
             obs["setup_exc"] = "%s during the history" % type(e).__name__
             return obs
@@ -357,7 +384,7 @@ def run_history(variant, stack, hist, dst, policy=("whole",)):
         n0, h0 = len(dev.log), len(dev.hidden_lines)
         exc = None
         try:
-            r.call(d.acquire_priv, dst)
+            gcall(r, d.acquire_priv, dst)
         except Runaway:
             exc = "Runaway"
         except BaseException as e:  # noqa
@@ -423,7 +450,7 @@ def run_calls(variant, stack, hist, policy=("whole",)):
         names, order, cls = observe_tables(variant, d, dev)
         obs.update(names=names, order=order, cls=cls)
         try:
-            r.call(d.acquire_priv, hist["start"])
+            gcall(r, d.acquire_priv, hist["start"])
         except BaseException as e:  # noqa
             obs["setup_exc"] = type(e).__name__
             return obs
@@ -439,7 +466,7 @@ def run_calls(variant, stack, hist, policy=("whole",)):
             o = {"pre_mode": dev.mode, "pre_dialog": dev.dialog is not None, "belief0": d._current_priv_level.name}
             exc = None
             try:
-                r.call(d.acquire_priv, c["dst"])
+                gcall(r, d.acquire_priv, c["dst"])
             except Runaway:
                 exc = "Runaway"
             except BaseException as e:  # noqa
